@@ -123,6 +123,24 @@ def check_case(case, res):
         return
     exists = judge(case, res, ex, ids, vals, rects, ret, 'direct')
     del keep
+    if len(set(lst)) < len(lst):
+        # repeated rectangles given as the SAME object listed several times (aliases instead of equal copies)
+        reset_frame_state()
+        ex2, fresh = build(fam, lst)
+        Rectangle.set_epsilon(float(smallest) * 1e-12)
+        first = {}
+        rects2 = [first.setdefault(t, r) for t, r in zip(lst, fresh)]
+        ids2 = [id(r) for r in rects2]
+        vals2 = [(r.center.x, r.center.y, r.shape.w, r.shape.h) for r in rects2]
+        keep2 = list(rects2)
+        try:
+            ret2 = create_stog(rects2)
+        except Exception as e:  # noqa
+            res.violation('raises', case, dict(fam=fam, n=len(lst), via='direct-alias'), 'a verdict', f'{type(e).__name__}: {e}')
+            ret2 = None
+        if ret2 is not None:
+            judge(case, res, ex2, ids2, vals2, rects2, ret2, 'direct-alias')
+        del keep2
     if case.get('netlist'):
         reset_frame_state()
         check_via_netlist(case, res, fam, lst)
